@@ -7,18 +7,20 @@ import (
 	"encoding/json"
 	"fmt"
 	"os"
+	"runtime"
+	"time"
 )
 
 type summary struct {
-	Cmd           string                 `json:"cmd"`
-	Evaluations   int                    `json:"evaluations"`
-	Nontrivial    int                    `json:"distinct_nontrivial"`
-	Mismatches    []map[string]any       `json:"mismatches"`
-	OracleFails   []map[string]any       `json:"oracle_failures"`
-	Known         []map[string]any       `json:"known_findings"`
-	Samples       []any                  `json:"samples"`
-	Distribution  map[string]int         `json:"distribution"`
-	Extra         map[string]any         `json:"extra,omitempty"`
+	Cmd          string           `json:"cmd"`
+	Evaluations  int              `json:"evaluations"`
+	Nontrivial   int              `json:"distinct_nontrivial"`
+	Mismatches   []map[string]any `json:"mismatches"`
+	OracleFails  []map[string]any `json:"oracle_failures"`
+	Known        []map[string]any `json:"known_findings"`
+	Samples      []any            `json:"samples"`
+	Distribution map[string]int   `json:"distribution"`
+	Extra        map[string]any   `json:"extra,omitempty"`
 }
 
 func newSummary(cmd string) *summary {
@@ -40,6 +42,21 @@ func main() {
 		os.Exit(2)
 	}
 	cmd, args := os.Args[1], os.Args[2:]
+	// resource watchdog: an implementation that leaks into shared state (or a runaway generator) is
+	// reported as a finding of the run instead of being killed by the kernel minutes later
+	go func() {
+		var ms runtime.MemStats
+		for {
+			time.Sleep(500 * time.Millisecond)
+			runtime.ReadMemStats(&ms)
+			if ms.HeapAlloc > 6<<30 {
+				s := newSummary(cmd)
+				s.Mismatches = append(s.Mismatches, map[string]any{"kind": "resource-blowup", "detail": fmt.Sprintf("the %s run allocated more than 6 GiB of live heap: the implementation (or the policy value it mutates) grows without bound", cmd)})
+				s.emit()
+				os.Exit(0)
+			}
+		}
+	}()
 	switch cmd {
 	case "rxcheck":
 		rxcheck(args)
